@@ -209,6 +209,7 @@ def run(idx: ProgramIndex, rep: Report, tier: str):
         "C03-8": "no method overwrites a tensor owned by the object (cache entry, parameter, buffer, training data) in place, except the `.data` initialisation idiom and flag fill_()",
         "C03-9": "branches on the value-neutral setting detach_test_caches differ by .detach() only (what justifies leaving it out of every cache key)",
         "C03-7": "memo primitives: the three key builders agree, args/kwargs enter the key, clear_cache_hook rebinds to an empty dict",
+        "C03-10": "a value-changing setting read while the model's own modules (kernels, means, likelihoods) are evaluated reaches every prediction cache: the strategy keys or re-validates its caches by it",
     }
     for k, v in rules.items():
         rep.rule(k, v)
@@ -223,6 +224,7 @@ def run(idx: ProgramIndex, rep: Report, tier: str):
     detach_neutral(idx, rep)
     per_call_state(idx, rep)
     state_not_overwritten(idx, rep)
+    module_settings_reach_caches(idx, rep)
     rep.assume("regulariser/precision settings (variational_cholesky_jitter, cholesky_jitter, _linalg_dtype_cholesky) are not changed between two evaluation-mode calls on the same model: gpytorch caches Cholesky factors computed with them by design")
     rep.assume("settings read only inside linear_operator (CG vs Cholesky, Lanczos rank) select between algorithms for the same quantity (the 'iterative paths at tight tolerance' caveat of C01)")
     rep.assume("direct parameter edits while staying in eval mode are outside the documented invalidation points (excluded by the property)")
@@ -1236,3 +1238,91 @@ def per_call_state(idx: ProgramIndex, rep: Report):
                             "memo entry `%s` of %s is computed from per-call state self.%s (recorded by %s) through %s, which uses it: the cached value keeps properties of the call that filled the cache (e.g. its batch shape)" % (
                                 name, cls.qualname, a.attr, percall[a.attr], callee.qualname), {"callee": callee.qualname})
     rep.floor("C03-5", "per-call state reads in memoised methods", n_sites, 2)
+
+
+# ---- C03-10 --------------------------------------------------------------------------------------------------------
+MODULE_SETTING_NEUTRAL = {
+    # setting read in kernel / mean / likelihood code -> why it does not change the value of what the prediction caches hold
+    "use_toeplitz": "operator representation of the same grid covariance",
+    "lazily_evaluate_kernels": "when the kernel is evaluated, not what it evaluates to (the strategy *class* chosen from the representation is an observation below)",
+    "checkpoint_kernel": "chunking of the same products (deprecated beta feature)",
+    "num_likelihood_samples": "number of Monte-Carlo samples of non-Gaussian likelihoods: not part of any exact prediction cache",
+    "observation_nan_policy": "keyed into the mean cache / handled by C16-3 and C16-6",
+    "debug": "argument checks only",
+    "trace_mode": "tracing only",
+    "memory_efficient": "storage only",
+}
+
+
+def module_settings_reach_caches(idx: ProgramIndex, rep: Report):
+    """The prediction strategies memoise quantities computed from one evaluation of the model's modules (the train/train covariance inside
+    train_prior_dist, mean_cache, covar_cache).  A setting that changes what a kernel / mean / noise model *returns* therefore changes
+    what those caches should hold: the next prediction under another value of the setting equals that of a fresh model only if the
+    owning strategy keys its caches by the setting or re-validates them.  C03-4 follows self-calls from the cached method; this rule
+    closes the other route - through the modules the strategy was built from."""
+    from . import c16  # policy readers are handled there
+    n = 0
+    fams = []
+    for base in ("Kernel", "Mean", "Likelihood", "Noise"):
+        try:
+            b = idx.find_class(base)
+        except AnalysisError:
+            continue
+        fams += [b] + list(idx.subclasses(b))
+    seen = set()
+    strategies = [c for c in idx.package_classes() if c.name.endswith("PredictionStrategy")]
+    for cls in fams:
+        for mname, fi in sorted(cls.methods.items()):
+            if mname.startswith("__") and mname not in ("__call__",):
+                continue
+            for sname in sorted(setting_reads(idx, fi)):
+                base = sname.split(".")[0]
+                key = (cls.qualname, mname, sname)
+                if key in seen:
+                    continue
+                seen.add(key)
+                n += 1
+                inst = "%s:%s.%s<-%s" % (cls.module.name, cls.qualname, mname, sname)
+                if base in MODULE_SETTING_NEUTRAL:
+                    rep.add("C03-10", inst, fi.where, True, "value-neutral by table: %s" % MODULE_SETTING_NEUTRAL[base], {}, trivial=True)
+                    continue
+                if base in REGULARISER:
+                    rep.add("C03-10", inst, fi.where, True, "regulariser under stated assumption", {}, trivial=True)
+                    continue
+                # value-changing: which strategy serves this module, and does any of its cached members key / validate by the setting?
+                owner = None
+                ps = cls.lookup("prediction_strategy")
+                if ps is not None:
+                    for c in calls_in(ps.node):
+                        nm = (chain(c.func) or "").split(".")[-1]
+                        owner = next((k for k in strategies if k.name == nm), owner)
+                owners = [owner] if owner else [k for k in strategies if k.name == "DefaultPredictionStrategy"]
+                handled = False
+                for k in owners:
+                    for m in k.all_methods().values():
+                        keyed = bool(cache_name_of(m)[0]) and sname in _key_settings(idx, k, m)
+                        revalidates = sname in setting_reads(idx, m) and any((chain(c.func) or "").split(".")[-1] in ("clear_cache_hook", "_clear_cache", "pop_from_cache", "pop_from_cache_ignore_args") for c in calls_in(m.node))
+                        if keyed or revalidates:
+                            handled = True
+                rep.add("C03-10", inst, fi.where, handled,
+                        "the serving strategy keys a cache by settings.%s or re-validates its memo against it" % sname if handled else
+                        "settings.%s changes what %s.%s returns, and the result is memoised by %s (train/train covariance inside train_prior_dist, mean_cache, covar_cache) without the setting in any key: after a first evaluation-mode call, calls under the other value of the setting keep the posterior of the first" % (
+                            sname, cls.qualname, mname, ", ".join(k.name for k in owners)), {})
+    # the strategy object is itself a cache (ExactGP.prediction_strategy, filled at the first evaluation-mode call): the *class* it gets
+    # must not depend on a setting either.  The factory dispatches on the representation of the train/train covariance, and whether that
+    # is a LazyEvaluatedKernelTensor is decided by settings.lazily_evaluate_kernels inside Kernel.__call__.
+    try:
+        fac = idx.function(idx.package + ".models.exact_prediction_strategies", "prediction_strategy")
+    except AnalysisError:
+        fac = None
+    if fac is not None:
+        n += 1
+        by_repr = [c for c in calls_in(fac.node) if chain(c.func) == "isinstance" and len(c.args) == 2 and "LazyEvaluatedKernelTensor" in src(c.args[1])]
+        kcall = idx.method(idx.find_class("Kernel"), "__call__", own=True)
+        lazy_by_setting = "lazily_evaluate_kernels" in setting_reads(idx, kcall)
+        alt = sorted({(chain(a.value) or src(a.value)) for a in ast.walk(fac.node) if isinstance(a, ast.Assign) and len(a.targets) == 1 and isinstance(a.targets[0], ast.Name) and a.targets[0].id == "cls"})
+        bad = bool(by_repr) and lazy_by_setting and len(alt) > 1
+        rep.add("C03-10", "%s:prediction_strategy[class chosen from the representation]<-lazily_evaluate_kernels" % fac.module.name, fac.where, not bad,
+                "the strategy class does not depend on how the covariance happens to be represented" if not bad else
+                "the strategy class is chosen by isinstance(train_train_covar, LazyEvaluatedKernelTensor) (%s), and whether the covariance is lazy is decided by settings.lazily_evaluate_kernels at the first evaluation-mode call: the model keeps the strategy of that call (a kernel-specific strategy vs. the default one) for all later calls under the other value of the setting" % " | ".join(alt), {})
+    rep.floor("C03-10", "(module method, setting) pairs", n, 6)
